@@ -27,10 +27,10 @@ Definition eager_position (e : eolp) (inp : minput) (k : nat) : option pos :=
 Definition lazy_position (e : eolp) (inp : minput) (k : nat) : pos :=
   track e (iinit inp) (firstn k (idata inp)).
 
-(* byte(): eager returns m_current.byte, lazy returns current() - m_begin.data *)
+(* byte(): eager returns m_current.byte, lazy returns m_begin.byte + ( current() - m_begin.data )   (after /repo e0cf8e4) *)
 Definition eager_byte (e : eolp) (inp : minput) (k : nat) : option N :=
   option_map pbyte (eager_position e inp k).
-Definition lazy_byte (k : nat) : N := N.of_nat k.
+Definition lazy_byte (inp : minput) (k : nat) : N := (pbyte (iinit inp) + N.of_nat k)%N.
 
 (* at( p ) = begin() + p.byte *)
 Definition at_ (p : pos) : Z := Z.of_N (pbyte p).
@@ -97,7 +97,7 @@ Definition position_of (eager : bool) (e : eolp) (inp : minput) (k : nat) : opti
   else if (k <=? length (idata inp))%nat then Some (lazy_position e inp k) else None.
 
 Definition byte_of (eager : bool) (e : eolp) (inp : minput) (k : nat) : option N :=
-  if eager then eager_byte e inp k else Some (lazy_byte k).
+  if eager then eager_byte e inp k else Some (lazy_byte inp k).
 
 Record report := mkrep {
   r_pos : pos; r_byte : option N; r_at : Z; r_bol : Z; r_eol : ptr; r_line : line }.
